@@ -158,6 +158,8 @@ func txOpName(ev txsim.Event) string {
 		return "InsertTx(unmined)+AddCredit"
 	case "confirm":
 		return "InsertTx(mined)+AddCredit"
+	case "redeliver":
+		return "InsertTx+AddCredit(again)"
 	case "disconnect":
 		return "Rollback"
 	case "abandon":
@@ -249,8 +251,8 @@ func runTxCase(in input) (*caseOut, error) {
 			kres, kfailed := applyTx(ke, ev)
 			ke.fdb.FailAt = 0
 			ko.Fired, ko.Err, ko.Text = ke.fdb.Fired, kfailed, kres
-			if ke.fdb.Fired {
-				ko.Callee = ke.fdb.Calls[len(ke.fdb.Calls)-1].Callee
+			if fc := ke.fdb.FailedCall(); fc != nil {
+				ko.Callee = fc.Callee
 			}
 			switch {
 			case !ko.Fired:
@@ -373,7 +375,7 @@ func genTxStates(r *gen.R, perHist, want int) []input {
 		// the event the history continues with, and the next few chain events
 		extra := 0
 		for j := p; j < len(evs) && extra < 4; j++ {
-			if j == p || evs[j].K == "seen" || evs[j].K == "confirm" {
+			if j == p || evs[j].K == "seen" || evs[j].K == "confirm" || evs[j].K == "redeliver" {
 				before := len(in.TxOps)
 				add(evs[j])
 				if len(in.TxOps) > before {
